@@ -19,6 +19,7 @@ import (
 	"github.com/brutella/hc/db"
 	"github.com/brutella/hc/event"
 	"github.com/brutella/hc/hap"
+	"github.com/brutella/hc/hap/endpoint"
 	haphttp "github.com/brutella/hc/hap/http"
 	"github.com/brutella/hc/util"
 
@@ -173,7 +174,8 @@ func mkTempDir(prefix string) string {
 	return d
 }
 
-// nopEmitter satisfies event.Emitter without mDNS side effects.
+// registerResource makes startHTTPServer register the /resource endpoint too.
+var registerResource bool
 
 // startHTTPServer starts hc's HAP HTTP server (hap/http.NewServer: all endpoints, real sessions and database) without
 // the ip transport around it, i.e. without the mDNS responder whose re-announcement delays every successful pairing
@@ -200,6 +202,13 @@ func startHTTPServer(dir, pin string, accs ...*accessory.Accessory) (*Transport,
 	}
 	srv := haphttp.NewServer(haphttp.Config{Port: "127.0.0.1:0", Context: hctx, Database: database, Container: container,
 		Device: device, Mutex: &sync.Mutex{}, Emitter: event.NewEmitter()})
+	if registerResource {
+		// as ip_transport.go does for a transport with a camera snapshot function
+		srv.Mux.Handle("/resource", srv.Authenticate(endpoint.NewResource(hctx, func(w, h uint) (*image.Image, error) {
+			var img image.Image = image.NewRGBA(image.Rect(0, 0, 4, 4))
+			return &img, nil
+		})))
+	}
 	cctx, cancel := gocontext.WithCancel(gocontext.Background())
 	done := make(chan struct{})
 	go func() { srv.ListenAndServe(cctx); close(done) }()
